@@ -191,6 +191,9 @@ func felts(l []string) []felt.Felt {
 
 // InvokeTx is the i-th invoke (v3) transaction of block number n; its hash is juno's TransactionHash.
 func (s *BlockSpec) InvokeTx(n uint64, i int) *core.InvokeTransaction {
+	if s.TxSeed != 0 {
+		n = s.TxSeed
+	}
 	tx := &core.InvokeTransaction{
 		Version:       new(core.TransactionVersion).SetUint64(3),
 		SenderAddress: FU(77),
